@@ -262,6 +262,10 @@ pub fn run_lib(sc: &Scenario) -> Observation {
             };
             for (i, (tc, o)) in testcases.iter().zip(outputs.iter()).enumerate() {
                 tests[i].raw = Some(raw_of(o));
+                // (detached test cases are not evaluated - as `scrut test` does since the repair of AF)
+                if o.exit_code == ExitStatus::Detached {
+                    continue;
+                }
                 tests[i].results = 1;
                 tests[i].report = if matches!(o.exit_code, ExitStatus::Timeout(_)) {
                     Report::Timeout
